@@ -36,21 +36,27 @@ CHECKS = {
             "each store is read back; the same matrix runs through 10 ARM and 6 Thumb load/store instructions and "
             "instruction fetch is checked with E=0/1.",
             "Trusted: armmc/ref/memmodel.py. MPU off (protection is C14/C15); data values from a 3-value alphabet per "
-            "size.", "3 C13"),
+            "size (thorough: plus every walking 1 / walking 0 of the access width, over the byte pattern and its "
+            "complement as surrounding memory).", "3 C13"),
     "C05": ("complete enumeration of (instruction, cond, NZCV) on the real emulator with a differential oracle "
             "(conditional run vs AL run vs no-op frame)",
             "The 16-entry condition table is checked for all cond x NZCV through ARM cond fields, IT-block conditions "
             "(16- and 32-bit) and B<c>; then every conditional instruction word the repository's tests decode (about 600 "
             "encodings, all abstract opcodes) is executed under all 15 x 16 (cond, NZCV) pairs: failing => full snapshot "
-            "unchanged except PC+len and ITSTATE; passing => same snapshot diff as the AL execution.",
-            "Differential: no reference model. One operand tuple per encoding (the harvested word, registers pointing "
-            "into RAM). Instances the implementation itself rejects as UNPREDICTABLE and instances UNDEFINED under AL "
+            "unchanged except PC+len and ITSTATE; passing => same snapshot diff as the AL execution. The same oracle then "
+            "runs over every conditional ENCODING: all 2^16 Thumb halfwords as the only instruction of an IT block, and "
+            "every leaf of the lazy-word partition of the ARM (cond field rewritten) and Thumb-32 decode spaces with the "
+            "free operand bits set to 2 (thorough: 4) patterns, under conds {EQ,NE} x NZCV {0000,0100}.",
+            "Differential: no reference model. One register file (registers pointing into RAM); operand fields per "
+            "decode leaf by pattern members. Instances the implementation itself rejects as UNPREDICTABLE and instances UNDEFINED under AL "
             "are skipped.", "3 C05"),
     "C20": ("schedule enumeration: all interleavings of 2-3 real instances x construction points; plus all "
             "programs <= 3 x prefix points re-created on fresh and reused instances; differential trace oracle",
             "(a) every program of length 1..3 over a 10-item ARM and a 10-item Thumb menu, every prefix point: the "
             "snapshot is re-installed by assignment on a fresh instance and on 6 instances that ran other programs "
-            "(scratch state left behind) and the continuation trace must be identical; (b) every interleaving of the "
+            "(scratch state left behind) and the continuation trace must be identical - every run is program length + 2 "
+            "steps with returning handlers at the vectors, so exception entries AND returns lie on both sides of the "
+            "snapshot points; (a') the program set in forward order vs reverse order in a forked child; (b) every interleaving of the "
             "steps of two (thorough: three) instances with every ordered tuple of 4 configurations (arch version, "
             "PMSA/VMSA, extensions), every position of the later instance's construction, 16 program pairs: each "
             "instance's trace (outcome + digest of the full snapshot after each step) must equal its solo trace.",
